@@ -249,6 +249,7 @@ func (s *Stats) add(o Stats) {
 	s.Assertions += o.Assertions
 	s.DomainDecided += o.DomainDecided
 	s.IntervalDecided += o.IntervalDecided
+	s.StaleModels += o.StaleModels
 }
 
 func (s *SolverStats) add(o SolverStats) {
